@@ -57,6 +57,10 @@ def _ref_match(kind: str, src: str, msg) -> bool:
                 and msg.exists is False)
     if kind == 'peerP':
         return src == 'p' and isinstance(msg, PeerTransferReply.Request) and msg.ticket == 1
+    if kind == 'peerPn':    # no field matchers at all: still only from peer p
+        return src == 'p' and isinstance(msg, PeerTransferReply.Request)
+    if kind == 'srvN':      # no field matchers: any AddUser.Response from the server
+        return src == 'server' and isinstance(msg, AddUser.Response)
     if kind == 'peerQ':
         return src == 'q' and isinstance(msg, PeerTransferReply.Request) and msg.ticket == 1
     if kind == 'probe':
@@ -78,6 +82,10 @@ def _start_waiter(kind: str, network: Network, timeout: float):
         return lambda: network.wait_for_peer_message('p', PeerTransferReply.Request, {'ticket': 1}, timeout=timeout)
     if kind == 'peerQ':
         return lambda: network.wait_for_peer_message('q', PeerTransferReply.Request, {'ticket': 1}, timeout=timeout)
+    if kind == 'peerPn':
+        return lambda: network.wait_for_peer_message('p', PeerTransferReply.Request, timeout=timeout)
+    if kind == 'srvN':
+        return lambda: network.wait_for_server_message(AddUser.Response, timeout=timeout)
     if kind == 'futA':
         async def fut_style():
             # the way the library's own managers wait (transfer negotiation, peer address)
@@ -94,7 +102,7 @@ def _start_waiter(kind: str, network: Network, timeout: float):
     raise KeyError(kind)
 
 
-WAITER_KINDS = ['srvA', 'srvB', 'stA', 'call', 'peerP', 'peerQ', 'futA', 'exec']
+WAITER_KINDS = ['srvA', 'srvB', 'stA', 'call', 'peerP', 'peerQ', 'futA', 'exec', 'peerPn', 'srvN']
 
 MESSAGES = {
     'A': ('server', lambda: AddUser.Response('a', True, 2, STATS, 'BE')),
@@ -105,6 +113,7 @@ MESSAGES = {
     'P2': ('p', lambda: PeerTransferReply.Request(2, True)),
     'Q1': ('q', lambda: PeerTransferReply.Request(1, False, reason='Cancelled')),
 }
+_MSG_OBJS = {k: v[1]() for k, v in MESSAGES.items()}
 PROBE_MSG = lambda: GetUserStats.Response('z', STATS)  # noqa: E731
 
 
@@ -139,7 +148,7 @@ def run_one(params: dict, chooser, deviations=True) -> dict:
         install_virtual_time(world)
         server = ScriptedServer(net)
         need_peers = sorted({MESSAGES[m][0] for m in msgs if MESSAGES[m][0] != 'server'} |
-                            {{'peerP': 'p', 'peerQ': 'q'}[w[0]] for w in waiters if w[0] in ('peerP', 'peerQ')})
+                            {{'peerP': 'p', 'peerQ': 'q', 'peerPn': 'p'}[w[0]] for w in waiters if w[0] in ('peerP', 'peerQ', 'peerPn')})
         bus = EventBus()
         network = Network(make_settings(obfuscated_port=0, _copy=False), bus)
         obs = Obs(world, bus)
@@ -312,6 +321,7 @@ def _waiter_sets(tier: str):
     triples = [
         ['srvA', 'srvA', 'srvA'], ['srvA', 'futA', 'call'], ['srvA', 'srvB', 'stA'], ['peerP', 'peerQ', 'peerP'],
         ['exec', 'stA', 'exec'], ['futA', 'futA', 'srvA'], ['call', 'call', 'srvA'], ['peerP', 'srvA', 'peerP'],
+        ['peerPn', 'peerQ', 'peerP'], ['srvN', 'srvA', 'srvB'],
     ]
     if tier == 'thorough':
         triples = [list(t) for t in itertools.combinations_with_replacement(kinds, 3)]
@@ -328,10 +338,17 @@ def _relevant(waiters, msgs) -> bool:
     waiters' sources (others are exercised by the probe phase anyway)"""
     srcs = set()
     for k, _, _ in waiters:
-        srcs.add({'peerP': 'p', 'peerQ': 'q'}.get(k, 'server'))
+        srcs.add({'peerP': 'p', 'peerQ': 'q', 'peerPn': 'p'}.get(k, 'server'))
     if 'p' in srcs or 'q' in srcs:
         srcs |= {'p', 'q'}
-    return all(MESSAGES[m][0] in srcs for m in msgs)
+    if not all(MESSAGES[m][0] in srcs for m in msgs):
+        return False
+    if len(msgs) >= 2:
+        # longer sequences must contain at least one message that answers one of the waiters
+        # (pure distractor sequences are covered at length 1)
+        objs = [(MESSAGES[m][0], _MSG_OBJS[m]) for m in msgs]
+        return any(_ref_match(k, src, o) for k, _, _ in waiters for src, o in objs)
+    return True
 
 
 def scenarios(tier: str):
